@@ -212,9 +212,13 @@ func (a *SparseInt64Matrix) Set(b ConstMatrix) {
   if n1 != n2 || m1 != m2 {
     panic("Copy(): Matrix dimension does not match!")
   }
-  for it := a.Iterator(); it.Ok(); it.Next() {
-    i, j := it.Index()
-    it.Get().Set(b.ConstAt(i, j))
+  for it := a.JOINT_ITERATOR(b); it.Ok(); it.Next() {
+    s1, s2 := it.GET()
+    if s1.ptr == nil {
+      i, j := it.Index()
+      s1 = a.AT(i, j)
+    }
+    s1.Set(s2)
   }
 }
 func (matrix *SparseInt64Matrix) SetIdentity() {
